@@ -262,7 +262,7 @@ func (in *Interp) protectRaw(f func() []Value) (vals []Value, err *LuaError) {
 	nframes := len(in.frames)
 	defer func() {
 		if p := recover(); p != nil {
-			if le, ok := p.(*LuaError); ok && le.Val != closeSentinel {
+			if le, ok := p.(*LuaError); ok && !le.Closing {
 				in.frames = in.frames[:nframes]
 				err = le
 				return
@@ -295,30 +295,7 @@ func (in *Interp) execBlockThen(stmts []mlua.Stmt, e *env, then func(e *env) sig
 		for len(tbc) > 0 && tbc[len(tbc)-1].idx >= minIdx {
 			ent := tbc[len(tbc)-1]
 			tbc = tbc[:len(tbc)-1]
-			var errVal Value
-			if sig.kind == sigError {
-				errVal = sig.err.Val
-				if errVal == closeSentinel {
-					errVal = nil
-				} else if in.cur != nil && in.cur.prot == 0 {
-					// manual §3.3.8: a coroutine that ends with an error does not
-					// unwind its stack and closes nothing until coroutine.close;
-					// implementations that close at once differ observably.
-					unspecified("error kills a coroutine that has pending to-be-closed variables")
-				}
-			}
-			in.feat("close-handler-run")
-			_, cerr := in.protectRaw(func() []Value {
-				h := in.metaOf(ent.v, "__close")
-				if h == nil {
-					in.rtError(nil, "metamethod 'close'")
-				}
-				return in.call(h, []Value{ent.v, errVal}, nil, false)
-			})
-			if cerr != nil {
-				in.feat("close-handler-raised")
-				sig = signal{kind: sigError, err: cerr}
-			}
+			sig = in.runCloser(ent.v, sig)
 		}
 		return sig
 	}
@@ -369,6 +346,40 @@ func (in *Interp) execBlockThen(stmts []mlua.Stmt, e *env, then func(e *env) sig
 		return closeFrom(0, then(e))
 	}
 	return closeFrom(0, signal{})
+}
+
+// runCloser calls the __close metamethod of v while control leaves its scope
+// with sig, and returns the signal to continue with.
+func (in *Interp) runCloser(v Value, sig signal) signal {
+	var errVal Value
+	closing := false
+	if sig.kind == sigError {
+		errVal = sig.err.Val
+		closing = sig.err.Closing
+		if errVal == closeSentinel {
+			errVal = nil
+		} else if !closing && in.cur != nil && in.cur.prot == 0 {
+			// manual §3.3.8: a coroutine that ends with an error does not
+			// unwind its stack and closes nothing until coroutine.close;
+			// implementations that close at once differ observably.
+			unspecified("error kills a coroutine that has pending to-be-closed variables")
+		}
+	}
+	in.feat("close-handler-run")
+	_, cerr := in.protectRaw(func() []Value {
+		h := in.metaOf(v, "__close")
+		if h == nil {
+			in.rtError(nil, "metamethod 'close'")
+		}
+		return in.call(h, []Value{v, errVal}, nil, false)
+	})
+	if cerr != nil {
+		in.feat("close-handler-raised")
+		// while a coroutine is being closed nothing inside it runs again: the
+		// error of a handler cannot be caught by a pcall of that coroutine
+		sig = signal{kind: sigError, err: &LuaError{Val: cerr.Val, Closing: closing}}
+	}
+	return sig
 }
 
 // catch runs f, converting a Lua error raised in expression evaluation into
@@ -639,21 +650,7 @@ func (in *Interp) execGenFor(x *mlua.GenFor, e *env) signal {
 		for len(tbc) > 0 {
 			ent := tbc[len(tbc)-1]
 			tbc = tbc[:len(tbc)-1]
-			var errVal Value
-			if sig.kind == sigError {
-				errVal = sig.err.Val
-				if errVal == closeSentinel {
-					errVal = nil
-				} else if in.cur != nil && in.cur.prot == 0 {
-					unspecified("error kills a coroutine that has pending to-be-closed variables")
-				}
-			}
-			_, cerr := in.protectRaw(func() []Value {
-				return in.call(in.metaOf(ent.v, "__close"), []Value{ent.v, errVal}, nil, false)
-			})
-			if cerr != nil {
-				sig = signal{kind: sigError, err: cerr}
-			}
+			sig = in.runCloser(ent.v, sig)
 		}
 		return sig
 	}
